@@ -1,5 +1,6 @@
 import MosnVerif.Drive.Util
 import MosnVerif.Model.WeightedCluster
+import MosnVerif.Model.LB
 namespace MosnVerif.Drive.C06
 open MosnVerif.Drive MosnVerif.Model.WeightedCluster
 
@@ -23,9 +24,54 @@ def wc (vec draw : String) (impl : List String) : String :=
     s!"{if agree then "A" else "D"} {if spec then "S" else "V"} {joinWith "," allowed}"
   | _, _, _ => "E E bad-case"
 
+section WRR
+open MosnVerif.Model.LB MosnVerif.Model.EDF
+
+structure WAcc where
+  st : LBState
+  pos : Nat := 0
+  ties : Nat := 0                          -- picks where the float code resolved an exact tie differently from queue order
+  mismatch : Option (Nat × String × Nat) := none  -- first position where the served host is not a model pick
+
+/-- `wrr <w0,w1,…> <rr0> <warm-up picks|-> => <served hosts, one digit each>`: the real weighted round-robin balancer
+over all-healthy hosts. Agreement: every served host is the model's pick in the model state reached so far (exact ties of
+deadlines may be resolved either way — the float gap); predicate: every window of the served sequence respects
+`|nᵢ/wᵢ − nⱼ/wⱼ| ≤ 1/wᵢ + 1/wⱼ` for the effective weights (executable `windowsOk`). -/
+def wrr (wsTok rr0Tok preTok : String) (impl : List String) : String :=
+  let ws? := (wsTok.splitOn ",").mapM String.toNat?
+  let pre? := if preTok == "-" then some [] else (preTok.splitOn ",").mapM String.toNat?
+  match ws?, rr0Tok.toNat?, pre?, impl with
+  | some ws, some rr0, some pre, [seqTok] =>
+    let n := ws.length
+    let hosts : Hosts := (List.range n).map (fun i => { id := i, weight := ws.getD i 0, healthy := true, req := 0, conn := 0, score := 1 })
+    let st0 := newState .wrr hosts rr0 (pre.map some)
+    let seq : List Nat := seqTok.toList.map (fun c => c.toNat - '0'.toNat)
+    let rec go (a : WAcc) : List Nat → WAcc
+      | [] => a
+      | x :: r =>
+        let out := wrrChoose hosts a.st { hints := [some x] }
+        let det := (wrrChoose hosts a.st {}).result
+        let a1 := { a with st := out.st, pos := a.pos + 1, ties := if det == some x then a.ties else a.ties + 1 }
+        if out.result == some x || a.mismatch.isSome then go a1 r
+        else go { a1 with mismatch := some (a.pos, showOpt out.result, x) } r
+    let a := go { st := st0 } seq
+    let inRange := seq.all (fun x => decide (x < n))
+    let spec := inRange && windowsOk (wrrW ws) n seq
+    match a.mismatch with
+    | none => s!"A {if spec then "S" else "V"} ok picks={a.pos} ties-resolved-differently={a.ties}"
+    | some (p, m, x) => s!"D {if spec then "S" else "V"} first-mismatch@{p} model={m} impl={x}"
+  | _, _, _, _ => "E E bad-case"
+where
+  showOpt : Option Nat → String
+    | none => "-"
+    | some i => toString i
+
+end WRR
+
 def run (caseToks impl : List String) : String :=
   match caseToks with
   | ["wc", vec, draw] => wc vec draw impl
+  | ["wrr", ws, rr0, pre] => wrr ws rr0 pre impl
   | _ => "E E unknown-kind"
 
 end MosnVerif.Drive.C06
